@@ -17,7 +17,10 @@ git -C /repo worktree add --detach "$WT" HEAD >/dev/null 2>&1 || { echo worktree
 trap 'git -C /repo worktree remove --force "$WT" >/dev/null 2>&1; rm -rf "$WT"' EXIT
 cd "$WT"
 # how to run the demo
-if grep -qE -- "--test +[A-Za-z0-9_]+" "$SRC/README.md"; then
+NAME=none
+if [ -f "$SRC/run_demo.sh" ]; then
+  cp "$SRC/run_demo.sh" "$OUT/"; RUN="bash $SRC/run_demo.sh $SRC"
+elif grep -qE -- "--test +[A-Za-z0-9_]+" "$SRC/README.md"; then
   NAME=$(grep -oE -- "--test +[A-Za-z0-9_]+" "$SRC/README.md" | head -1 | awk '{print $2}'); KIND=test
   mkdir -p tests; cp "$SRC/demo.rs" tests/$NAME.rs; RUN="cargo test --offline --test $NAME"
 elif grep -qE -- "--example +[A-Za-z0-9_]+" "$SRC/README.md"; then
